@@ -22,7 +22,12 @@ def qpair(p):
     return "(" + ", ".join(C.cq(fr(v)) for v in p) + ")"
 
 
+INT_PARAMS = [False]      # shape parameters given as python ints (so that integer coordinates are not promoted to float by them)
+
+
 def dy(rng, lo, hi, den=4):
+    if INT_PARAMS[0]:
+        return int(rng.integers(lo, hi + 1))
     return float(rng.integers(lo * den, hi * den + 1)) / den
 
 
@@ -43,8 +48,9 @@ def gen_points(rng, thorough):
     if three:
         cols["z"] = rng.integers(-16, 17, size=n) / (1 if ints else 4)
     if ints:
+        idt = [np.int64, np.int32, np.int16, np.int8][int(rng.integers(0, 4))]       # integer coordinates may come in any integer width
         for k in ("x", "y") + (("z",) if three else ()):
-            cols[k] = cols[k].astype(np.int64)
+            cols[k] = cols[k].astype(idt)
     df = pd.DataFrame(cols)
     kw = {"X_axis": "x", "Y_axis": "y", "Field": "f"}
     if three:
@@ -84,6 +90,7 @@ def run(chk):
     bystander = [None]
     for _ in range(N):
         kind, info, kw, pts, side = gen_points(rng, thorough)
+        INT_PARAMS[0] = bool(kind != "grid" and str(info["x"].dtype).startswith("int") and rng.random() < 0.6)
         n = len(pts)
         ranking = rng.permutation(n)
         if rng.random() < 0.3:
